@@ -178,6 +178,15 @@ def impl(inp):
         return [[], [1, []]]
     cls = wrapstub.DynRecorder if drive[0] == 3 else wrapstub.Recorder
     rec = cls(w, inner, Codec(mapping, wrapstub.SHIFT if mid else 0))
+    if drive[0] != 3 and (len(drive[1]) if drive[0] == 0 else drive[2]) % 2 == 0:
+        # half of the cases: a second wrapper instance over its own simulation is used in between
+        _, w2 = build(script, mapping, nulls, dyn=False, mid=mid)
+
+        def act(wr, k):
+            if k[0] == "s":
+                return {aid(c): 3 for c in mapping[int(k[1:])]}
+            return 3
+        rec.decoy = wrapstub.Decoy(w2, act)
     if drive[0] == 0:
         play_direct(rec, drive[1])
     else:
